@@ -124,6 +124,33 @@ Qed.
 
 
 (* ---------------------------------------------------------------- *)
+(* whole runs                                                        *)
+(* ---------------------------------------------------------------- *)
+Notation fper := (fper M n nw).
+
+Fixpoint all_ok (ps : seq period) : Prop :=
+  if ps is p :: ps' then ok_period p /\ all_ok ps' else True.
+
+(* every period with observations has an invertible prediction-error covariance *)
+Fixpoint all_unit (fs : seq fper) : Prop :=
+  if fs is x :: fs' then f_F (ff x) \in unitmx /\ all_unit fs' else True.
+
+Lemma krun_cons a Q p ps :
+  krun a Q (p :: ps) = mkFper p (kstep a Q p) :: krun (f_a1 (kstep a Q p)) (f_Q1 (kstep a Q p)) ps.
+Proof. by []. Qed.
+
+(* each period's record is the forward step from the previous period's updated moments *)
+Fixpoint step_chain a Q (fs : seq fper) : Prop :=
+  if fs is x :: fs' then step_spec a Q (ff x) /\ step_chain (f_a1 (ff x)) (f_Q1 (ff x)) fs' else True.
+
+Lemma krun_chain a Q ps : is_sym Q -> all_ok ps -> step_chain a Q (krun a Q ps).
+Proof.
+elim: ps a Q => [|p ps IH] a Q sQ; first by [].
+case=> okp okps; rewrite krun_cons /=; have sp := kf_step_spec a sQ okp.
+by split=> //; apply: IH => //; exact: sp_Q1s sp.
+Qed.
+
+(* ---------------------------------------------------------------- *)
 (* C03: one step = exact Gaussian conditioning                       *)
 (* ---------------------------------------------------------------- *)
 
@@ -152,7 +179,6 @@ Proof. by rewrite mul_row_block !mulmx0 addr0 add0r tr_row_mx mul_row_col. Qed.
 (* ---------------------------------------------------------------- *)
 (* likelihood                                                         *)
 (* ---------------------------------------------------------------- *)
-Notation fper := (fper M n nw).
 Hypothesis flogM : forall x y : F, x != 0 -> y != 0 -> flog (x * y) = flog x + flog y.
 
 Lemma flog1 : flog 1 = 0.
@@ -286,6 +312,45 @@ move=> sp uF; rewrite contributionE /nll_gauss /ld /qf /log_det_F /pe_Fi_pe /det
 rewrite (sp_Fi sp) det_inv flogV; last by move: uF; rewrite unitmxE unitfE.
 rewrite mulN1r opprK /maha -(sp_pe sp).
 by rewrite [X in _ * X]addrC addrA.
+Qed.
+
+
+(* C03, for whole runs: in every period the update is the Gaussian conditioning of the prediction on
+   that period's observations, and the total likelihood is the sum over the periods of the negative
+   log densities of the observations under their predictive distributions N(y0_t, F_t)
+   (prediction-error decomposition) *)
+Fixpoint cond_chain a Q (fs : seq fper) : Prop :=
+  if fs is x :: fs' then
+    let p := fp x in let f := ff x in
+    [/\ f_a0 f = p_T p *m a + p_K p + P_u0 (p_us p) + v_term p,
+        f_Q0 f = p_T p *m Q *m (p_T p)^T + P_cov_u_Pt (p_us p),
+        f_a1 f = cond_mean (f_a0 f) (p_Z p *m f_a0 f + p_D p + p_H p *m p_w0 p) (f_Q0 f *m (p_Z p)^T)
+                           (p_Z p *m f_Q0 f *m (p_Z p)^T + p_H p *m p_cov_w p *m (p_H p)^T) (p_y p) &
+        f_Q1 f = cond_cov (f_Q0 f) (f_Q0 f *m (p_Z p)^T)
+                          (p_Z p *m f_Q0 f *m (p_Z p)^T + p_H p *m p_cov_w p *m (p_H p)^T)]
+    /\ cond_chain (f_a1 f) (f_Q1 f) fs'
+  else True.
+
+Theorem run_is_sequential_conditioning a Q ps : is_sym Q -> all_ok ps -> cond_chain a Q (krun a Q ps).
+Proof.
+move=> sQ ok; move: (krun_chain a sQ ok); move: (krun a Q ps) => fs {sQ ok}.
+elim: fs a Q => [|x fs IH] a Q //= [sp ch].
+split; last exact: IH.
+have [E0 EQ [Ey EF] E1 EQ1] := step_is_conditioning sp.
+by split=> //; rewrite -?Ey -?EF.
+Qed.
+
+Theorem prediction_error_decomposition a Q ps :
+  is_sym Q -> all_ok ps -> all_unit (krun a Q ps) ->
+  l_nll (likelihood false (krun a Q ps))
+  = \sum_(x <- krun a Q ps) nll_gauss flog flog2pi (f_y0 (ff x)) (f_F (ff x)) (p_y (fp x)).
+Proof.
+move=> sQ ok uF; have [<- _] := contributions_sum (krun a Q ps).
+rewrite /contributions sum_lgE Lmap_map big_map.
+move: uF (krun_chain a sQ ok); move: (krun a Q ps) => fs {sQ ok}.
+elim: fs a Q => [|x fs IH] a Q /=; first by rewrite !big_nil.
+case=> uFx uFs [sp ch]; rewrite !big_cons (IH _ _ uFs ch); congr (_ + _).
+by case: x sp uFx {ch uFs} => p f /= sp uFx; apply: contribution_is_nll sp uFx.
 Qed.
 
 End KalmanProofs.
